@@ -40,6 +40,7 @@ func finding(sig, format string, a ...any) Finding {
 
 // StreamFacts summarises a checked stream (for evidence counters).
 type StreamFacts struct {
+	FinalHeightsOK int
 	Data         int
 	NonEmpty     int
 	BelowHandoff int
@@ -70,6 +71,9 @@ func CheckStream(res *Result, ref *Ref, prefixOnly bool) (out []Finding, facts S
 	}
 	start, handoff := sess.ResolvedStartBlock, sess.LinearHandoffBlock
 	facts.Start, facts.Handoff = start, handoff
+	if spec.Cursor == "" && spec.Start > 0 && start != uint64(spec.Start) {
+		out = append(out, finding("stream/session-start-differs-from-request", "request for start block %d (no cursor): the session announces resolved start block %d", spec.Start, start))
+	}
 	stop := spec.Stop
 	facts.LateDropped = res.Late // attempts after the call returned are dropped by the real handler: observation only
 	data := res.Data()
@@ -101,6 +105,28 @@ func CheckStream(res *Result, ref *Ref, prefixOnly bool) (out []Finding, facts S
 		}
 		if d.Final > d.Num {
 			out = append(out, finding("stream/final-height-above-block", "block %d has final_block_height %d", d.Num, d.Final))
+		}
+		if spec.LinearFeed == nil && err == nil {
+			// finality as the harness's chain presented it: back-filled blocks come from block files (final themselves);
+			// linear blocks carry the last final block known when they were fed
+			want := d.Num
+			if d.Num >= handoff && !spec.FinalBlocksOnly && d.Num > spec.Final {
+				want = spec.Final
+				if lag := uint64(spec.LiveLag); lag > 0 && d.Num > lag && d.Num-lag > want {
+					want = d.Num - lag
+				}
+			}
+			if d.Final != want {
+				out = append(out, finding("stream/final-height-wrong", "block %d carries final_block_height %d, the chain presented it with last final block %d", d.Num, d.Final, want))
+			} else {
+				facts.FinalHeightsOK++
+			}
+			if cur.LIB.Num() != d.Final {
+				out = append(out, finding("stream/cursor-lib-differs-from-final-height", "block %d: cursor LIB %d, final_block_height %d", d.Num, cur.LIB.Num(), d.Final))
+			}
+			if (want == d.Num) != cur.IsOnFinalBlock() {
+				out = append(out, finding("stream/cursor-finality-wrong", "block %d (last final block %d): cursor step %s, on-final-block=%v", d.Num, want, cur.Step, cur.IsOnFinalBlock()))
+			}
 		}
 		// payload against the sequential reference
 		if d.ID != BlockID(d.Num) {
